@@ -120,3 +120,31 @@ def corpus_stream(rng, n, only_lf=True, mix=(0.25, 0.3, 0.15, 0.2, 0.1)):
             t = ''.join(c for c in t if c == '\n' or len(('a' + c + 'b').splitlines()) == 1)
         out.append(t)
     return out
+
+
+def repetitive(rng, texts, n):
+    """Documents in which the SAME piece of source text occurs several times (identical table cells, list items, paragraphs,
+    headings, link texts, code spans): memoisation keyed on text - sharing token objects, or reusing a decision made for an
+    identical string elsewhere - shows only on such documents."""
+    cells = ['x', '*e*', '`c`', '[l](u)', 'a b', '', '**s** t', '<b>']
+    out = []
+    for _ in range(n):
+        r = rng.random()
+        if r < 0.35:
+            c = [rng.choice(cells) for _ in range(2)]
+            ncol = rng.randint(2, 3)
+            row = lambda: '| ' + ' | '.join(rng.choice(c) for _ in range(ncol)) + ' |'
+            t = '\n'.join([row(), '|' + '---|' * ncol] + [row() for _ in range(rng.randint(1, 3))]) + '\n'
+        elif r < 0.6:
+            item = rng.choice(cells[:7]) or 'x'
+            t = '\n'.join(rng.choice(['- ', '1. ', '> ', '# ', '']) + item for _ in range(rng.randint(2, 4))) + '\n'
+        elif r < 0.8:
+            base = rng.choice(texts)
+            lines = base.split('\n')
+            k = rng.randrange(len(lines))
+            t = '\n'.join(lines[:k + 1] + ['', lines[k], ''] + lines[k + 1:])
+        else:
+            piece = rng.choice(cells[1:5])
+            t = '%s and %s\n\n> %s\n\n- %s\n- %s\n' % (piece, piece, piece, piece, piece)
+        out.append(t)
+    return out
